@@ -24,4 +24,7 @@ ASSUMPTIONS = ["plonky2 primitive constraint relations transcribed from qp-plonk
 
 
 def nontrivial(case, model_out):
-    return case.tag != "honest" or True
+    if case.fid != "101":
+        return True
+    depth = int(case.segs.split(";")[0].split()[5], 16)
+    return case.tag != "honest" or depth >= 1
